@@ -428,6 +428,14 @@ def rule_model_conversion(prog, rep):
               "atoms for three coordinate lines, so the cube would list fewer atoms than the PQR file has", where)
     except Flow:
         r.ok("model|unreadable-atom-is-loud", "a coordinate record that cannot be parsed stops the conversion with an error", where)
+    # the PQR of a complex is often two written files one after the other: TER / END in the middle end nothing
+    try:
+        both = run.call_function("io.py", "read_pqr", recs_ + ["TER\n", "END\n"] + recs_ + ["TER\n", "END\n"])
+        n_both = len(both) if isinstance(both, list) else None
+        r.add("model|atoms-after-END", n_both == 2 * len(recs_), f"two PQR files concatenated (END in the middle): {n_both} atoms read for {2 * len(recs_)} coordinate records"
+              + ("" if n_both == 2 * len(recs_) else " -- the cube lists fewer atoms than the PQR file has"), where)
+    except Flow as fl:
+        r.bad("model|atoms-after-END", f"read_pqr stops with {fl.value} on two concatenated PQR files", where)
     text = "".join(str(x) for x in written)
     lines = text.split("\n")
     want_atoms = [w for _, w in PQR_MODEL_LINES if w is not None]
